@@ -377,10 +377,17 @@ pub fn gen_history(rng: &mut Rng, o: &GenOpts) -> (WorldCfg, Vec<Op>) {
                 }
             }
             8 => {
+                // (forced operations must stay forced when the limiter has nothing left)
+                if o.exhaust && g.rng.chance(1, 3) {
+                    exhaust(&mut g, b, &mut ops);
+                }
                 let t = g.log_text();
                 ops.push(Op::Println(b, t));
             }
             9 => {
+                if o.exhaust && g.rng.chance(1, 2) {
+                    exhaust(&mut g, b, &mut ops);
+                }
                 let l = g.user_lines();
                 ops.push(Op::Suspend(b, l));
             }
@@ -418,15 +425,26 @@ pub fn gen_history(rng: &mut Rng, o: &GenOpts) -> (WorldCfg, Vec<Op>) {
                 }
             }
             16 => {
+                if o.exhaust && g.rng.chance(1, 3) {
+                    exhaust(&mut g, b, &mut ops);
+                }
                 let t = g.log_text();
                 ops.push(Op::MpPrintln(t));
             }
             17 => {
+                if o.exhaust && g.rng.chance(1, 2) {
+                    exhaust(&mut g, b, &mut ops);
+                }
                 let l = g.user_lines();
                 ops.push(Op::MpSuspend(l));
             }
             18 => ops.push(Op::Remove(b)),
-            19 => ops.push(Op::MpClear),
+            19 => {
+                if o.exhaust && g.rng.chance(1, 2) {
+                    exhaust(&mut g, b, &mut ops);
+                }
+                ops.push(Op::MpClear)
+            }
             20 => ops.push(Op::Align(g.rng.chance(2, 3))),
             21 => {
                 if g.rng.chance(1, 3) {
